@@ -265,6 +265,33 @@ pub fn c09(tier: &str, seed: u64) -> Report {
         rep.case(true, &d);
         if Fingerprint::compute(&d) != crc32(&d).to_be_bytes() { rep.violate("C09:crc", format!("Fingerprint::compute differs from CRC-32/ISO-HDLC on {}", hex_short(&d)), format!("c09:crc:{}", hex(&d))); }
     }
+    // body-length sweep: the length field rewritten for the CRC must carry into its high byte (bodies of 248..=264, 504..=520, ...
+    // bytes before the FINGERPRINT) - every multiple of four up to 1536, and the neighbourhood of every multiple of 256 up to 16 KiB
+    {
+        let mut lens: Vec<usize> = (0..=1536usize).step_by(4).collect();
+        let top = if tier == "thorough" { 65024 } else { 16384 };
+        let mut k = 2048; while k <= top { for d in [16usize, 12, 8, 4] { lens.push(k - d); } lens.push(k); lens.push(k + 4); k += 256; }
+        for body in lens {
+            if body < 4 || body + 8 > 65535 { continue; }
+            let val = rng.bytes(body - 4);
+            let r = catch(std::panic::AssertUnwindSafe(|| {
+                let mut b = Message::builder(MessageType::from_class_method(MessageClass::Request, 1), (rng.next() as u128).into());
+                b.add_raw_attribute(RawAttribute::new(0x8888.into(), &val)).unwrap();
+                b.add_fingerprint().map(|_| b.build())
+            }));
+            rep.case(true, &(body as u64).to_be_bytes());
+            match r {
+                Err(p) => rep.violate("C09:builder-fingerprint-panic", format!("add_fingerprint panics on a builder whose body is {} bytes: {}", body, p), format!("c09:rerun")),
+                Ok(Err(e)) => rep.violate("C09:builder-fingerprint-refused", format!("add_fingerprint refused on a fresh builder with a {}-byte body: {:?}", body, e), format!("c09:rerun")),
+                Ok(Ok(m)) => {
+                    let o = m.len() - 8;
+                    if m.len() != 20 + body + 8 || m[o + 4..] != refmsg::fingerprint_value(&m[..o], m.len()) || Message::from_bytes(&m).is_err() {
+                        rep.violate("C09:builder-fingerprint", format!("builder FINGERPRINT over a {}-byte body is not crc32(prefix with final length) ^ 0x5354554e (parser: {:?}) in {}", body, Message::from_bytes(&m).err(), hex_short(&m)), format!("c09:msg:{}", hex(&m)));
+                    }
+                }
+            }
+        }
+    }
     for i in 0..n_cases(tier, 60, 600) {
         // builder-built message
         let mut b = Message::builder(MessageType::from_class_method(MessageClass::Request, 1), (rng.next() as u128).into());
@@ -368,6 +395,37 @@ pub fn c04(tier: &str, seed: u64) -> Report {
     let mut rep = Report::new("c04", "messages sealed by the real builder and by the reference HMAC (SHA-1, SHA-256 incl. truncated 16..32, both) x {short-term, long-term} credentials over ASCII and multi-byte UTF-8 strings x single-bit flips / byte substitutions up to and including the integrity attribute x alternative keys; verdicts vs independent HMAC-SHA1/SHA256/MD5.");
     let mut rng = Rng::new(seed);
     let strs = ["pass", "p", "", "пароль", "密碼🔑", "a:b", "with space", "0123456789012345678901234567890123456789012345678901234567890123456789"];
+    // body-length sweep (the length field rewritten for the HMAC input must carry into its high byte): every multiple of four up
+    // to 1280 and the neighbourhood of every multiple of 256 up to 8 KiB, SHA-1 / SHA-256 / both
+    {
+        let mut lens: Vec<usize> = (0..=1280usize).step_by(4).collect();
+        let top = if tier == "thorough" { 65024 } else { 8192 };
+        let mut k = 1536; while k <= top { for d in [40usize, 36, 28, 24, 20, 16, 12, 8, 4] { lens.push(k - d); } lens.push(k); k += 256; }
+        let (creds, key) = (creds_short("pass"), key_short("pass"));
+        for (j, body) in lens.into_iter().enumerate() {
+            if body < 4 || body + 24 + 36 + 8 > 65535 { continue; }
+            let val = rng.bytes(body - 4);
+            let which = j % 3;
+            let r = catch(std::panic::AssertUnwindSafe(|| {
+                let mut b = Message::builder(MessageType::from_class_method(MessageClass::Request, 1), (rng.next() as u128).into());
+                b.add_raw_attribute(RawAttribute::new(0x8888.into(), &val)).unwrap();
+                if which != 1 { b.add_message_integrity(&creds, IntegrityAlgorithm::Sha1).unwrap(); }
+                if which != 0 { b.add_message_integrity(&creds, IntegrityAlgorithm::Sha256).unwrap(); }
+                b.build()
+            }));
+            rep.case(true, &(body as u64).to_be_bytes());
+            match r {
+                Err(p) => rep.violate("C04:builder-seal-panic", format!("add_message_integrity panics on a builder whose body is {} bytes: {}", body, p), "c04:rerun".to_string()),
+                Ok(m) => match refmsg::decode(&m) {
+                    Ok(rm) => {
+                        let (_, all_ok, _, _) = integrity_facts(&m, &rm, &key);
+                        if !all_ok { rep.violate("C04:builder-mac", format!("the builder's integrity value over a {}-byte body differs from the independent HMAC in {}", body, hex_short(&m)), format!("c04:seal:{}:{}", hex(&key), hex(&m))); }
+                    }
+                    Err(e) => rep.violate("C04:builder-mac", format!("the sealed message over a {}-byte body is not well-formed ({:?}): {}", body, e, hex_short(&m)), format!("c04:seal:{}:{}", hex(&key), hex(&m))),
+                },
+            }
+        }
+    }
     for i in 0..n_cases(tier, 200, 3000) {
         let long = rng.coin();
         let (u, p, r) = (*rng.pick(&strs), *rng.pick(&strs), *rng.pick(&strs));
